@@ -10,6 +10,24 @@ from vlib import Check
 def main(tier, seed, replay):
     ck = Check("C14", tier, seed)
     ck.coq_theorems()
+    # key creation while time passes: KMS round trips during which the virtual clock crosses second / precision / interval boundaries
+    # (sequential histories of the envelope harness, judged by the end state the property names: stored keys that others can load)
+    slow_replay = bool(replay) and '"Ops"' in open(replay).read()[:4000]
+    if not replay or slow_replay:
+        scases = envcheck.run_harness(ck, "env", [["-replay", replay]] if replay else [["-seed", str(seed + 17), "-n", "150" if tier == "quick" else "1500", "-x", "slowkms"]])
+        if scases is None:
+            return ck.finish()
+        sv = list(envcheck.MONITORS["C14"](scases))
+        ck.oblige(not sv, "keys created while KMS round trips take time are stored under the stamps their users name (%d histories)" % len(scases), json.dumps(sv[:1])[:2000])
+        ck.cov["histories_with_slow_kms"] = len(scases)
+        ck.cov["operations_with_a_slow_kms"] = sum(1 for c in scases for o in c["ops"] if o.get("slowkms"))
+        if sv:
+            v = sv[0]
+            ck.violation(ck.replay_file("slowkms", {"what": v["what"], "failing_op": v["op"], "Case": envcheck.shrink_ops(scases[v["case"]], v["op"]),
+                                                    "observed": scases[v["case"]]["obs"][v["op"]]}))
+        if slow_replay:
+            ck.cov.update({"evaluations": len(scases), "distinct_nontrivial": len(scases), "rule": "replay"})
+            return ck.finish()
     runs = [["-replay", replay]] if replay else [["-seed", str(seed), "-n", "480" if tier == "quick" else "6000"]]
     cases = envcheck.run_harness(ck, "race", runs) if not (replay and "metaconc" in replay) else []
     if cases is None:
